@@ -29,9 +29,10 @@ def construct(cn, t):
     seen = {}
     for b in variants():
         try:
-            if cn == "SwitcherPowerPlug": [device.SwitcherPowerPlug(t, *b, w, a) for w, a in ((0, 0.0), (2600, 11.8), (65535, 297.9))]
-            elif cn == "SwitcherWaterHeater": [device.SwitcherWaterHeater(t, *b, w, a, r, au) for w, a, r, au in ((0, 0.0, "00:00:00", "00:00:00"), (2600, 11.8, "00:45:10", "23:59:59"))]
-            elif cn == "SwitcherThermostat": [device.SwitcherThermostat(t, *b, m, 21.5, 24, f, sw, "ELEC7022") for m in device.ThermostatMode for f in device.ThermostatFanLevel for sw in device.ThermostatSwing]
+            # numbers as a caller may write them: whole amperes and whole degrees as int as well as float
+            if cn == "SwitcherPowerPlug": [device.SwitcherPowerPlug(t, *b, w, a) for w, a in ((0, 0.0), (2600, 11.8), (65535, 297.9), (0, 0), (2640, 12))]
+            elif cn == "SwitcherWaterHeater": [device.SwitcherWaterHeater(t, *b, w, a, r, au) for w, a, r, au in ((0, 0.0, "00:00:00", "00:00:00"), (2600, 11.8, "00:45:10", "23:59:59"), (2640, 12, "00:00:01", "01:00:00"))]
+            elif cn == "SwitcherThermostat": [device.SwitcherThermostat(t, *b, m, tmp, 24, f, sw, "ELEC7022") for m in device.ThermostatMode for f in device.ThermostatFanLevel for sw in device.ThermostatSwing for tmp in (21.5, 26)]
             else: [device.SwitcherShutter(t, *b, pos, d) for pos in (0, 50, 100) for d in device.ShutterDirection]
             r = "accepted"
         except ValueError: r = "refused"
@@ -69,6 +70,15 @@ def exercise():
             s = world.ScriptedApi(t2, "ab1c2d", "18")
             await s.run(9 if t2 else 11, [], [bytes(8) + b"\x01\x02\x03\x04" + bytes(12), bytes(120)], 1_700_000_000)
     asyncio.run(go())
+    # one device id heard as members of different families (a replaced device, a spoofed id): what the callback gets is an object of the class of
+    # ITS type's category, every time
+    seen = []
+    async def same_id():
+        pairs = [d for c in caps[:6] for d in [bytes(c[:18]) + b"\xaa\xaa\xaa" + bytes(c[21:])]]
+        await world.feed_bridge(1, [(0, d) for d in pairs + pairs[::-1]], (), lambda dev: seen.append((type(dev).__name__, dev.device_type.category.name)) or "x", c06.sentinel, serial=True)
+    asyncio.run(same_id())
+    CLS = {"SwitcherPowerPlug": "POWER_PLUG", "SwitcherWaterHeater": "WATER_HEATER", "SwitcherShutter": "SHUTTER", "SwitcherThermostat": "THERMOSTAT"}
+    exercise.mismatches = [x for x in seen if CLS.get(x[0]) != x[1]]
     # objects built with other spellings of their arguments (never started, never connected): ports as a tuple, a set, a mapping from
     # category to port, a generator; ids in upper case; whatever the constructors make of them, the tables are not theirs to change
     from aioswitcher.bridge import SwitcherBridge
@@ -162,6 +172,8 @@ def run(tier, rnd, out):
     codes_sweep(out)
     tables(out, "")
     exercise()
+    lib.differential(out, "one-device-id-heard-as-different-families", [{"what": "class of each delivered object vs the category of its type"}],
+                     ["consistent" if not exercise.mismatches else "delivered %s" % exercise.mismatches[:3]], None, ["consistent"], lambda c: c["what"])
     tables(out, "-after-the-library-was-used")
     out.exhaustive = True
 
